@@ -315,6 +315,53 @@ func TestVerif_C20Processor(t *testing.T) {
 				return
 			}
 			c.Count("refusals_reprinted_after_another_line", int64(stopLines))
+			// two different failures on one frame: the last write of every recording fails and so
+			// does the stop that follows it on the same frame. Each of the two lines differs from
+			// the line printed before it, so each is printed, for every recording.
+			script := []fsmEvent{{Kind: evFrame}}
+			for rec := 0; rec < 8; rec++ {
+				for i := 0; i < 4; i++ {
+					script = append(script, fsmEvent{Kind: evMotion})
+				}
+				for i := 0; i < 9; i++ {
+					script = append(script, fsmEvent{Kind: evFrame})
+				}
+			}
+			dry := newFsmRun(fsmConfig{FPS: 3, Preview: 1, Trigger: 1, Min: 1, Max: 2})
+			for _, ev := range script {
+				dry.step(ev)
+			}
+			lastWrite := map[int]bool{}
+			nw, recs := 0, 0
+			for _, st := range dry.steps {
+				for _, op := range st.Ops[sinkMotion] {
+					switch op.Op {
+					case opWrite:
+						nw++
+					case opStop:
+						lastWrite[nw-1] = true
+						recs++
+					}
+				}
+			}
+			if recs < 5 {
+				c.Inconclusive(fmt.Sprintf("only %d recordings in the scripted stream", recs))
+				return
+			}
+			buf.Reset()
+			wet := newFsmRun(fsmConfig{FPS: 3, Preview: 1, Trigger: 1, Min: 1, Max: 2})
+			wet.fault = func(sink int, op byte, n int) bool {
+				return sink == sinkMotion && (op == opStop || (op == opWrite && lastWrite[n]))
+			}
+			for _, ev := range script {
+				wet.step(ev)
+			}
+			wl, sl := strings.Count(buf.String(), "Failed to write to CPTV file"), strings.Count(buf.String(), "Failed to stop recording CPTV file")
+			if wl != recs || sl != recs {
+				c.Violation("distinct-message-lost", "write failure and stop failure on the same frame", fmt.Sprintf("%d recordings, in each the last write failed and then the stop failed; the log holds %d write-failure and %d stop-failure lines", recs, wl, sl))
+				return
+			}
+			c.Count("write_and_stop_failures_on_one_frame_logged", int64(wl))
 			c.Count("refused_starts", int64(sink.checks))
 			c.Count("log_lines", int64(lines))
 			c.Nontrivial(vNewHash().U64(uint64(idx)).Int(nframes).Sum())
